@@ -22,6 +22,9 @@ type Session struct {
 
 // loadAll loads the repository, parses all contracts, generates clause functions and builds SSA.
 func loadAll(repo, extDir string, patterns []string) (*Session, error) {
+	if recorded == nil {
+		loadBindings("/verif/bindings.json")
+	}
 	w, err := LoadWorld(repo, patterns)
 	if err != nil {
 		return nil, err
@@ -103,6 +106,8 @@ func main() {
 		fmt.Print(HelperFileText(os.Args[2], len(os.Args) < 4))
 	case "check":
 		cmdCheck(os.Args[2:])
+	case "bind":
+		cmdBind(os.Args[2:])
 	default:
 		fmt.Fprintln(os.Stderr, "unknown command")
 		os.Exit(2)
